@@ -147,7 +147,7 @@ class Fn:
     def __init__(self, name, props=(), ret=None, requires=(), ensures=(), decreases=None,
                  loops=None, before=(), after=(), rewrites=(), nth=0, emit_name=None,
                  external_body=False, sig_rewrites=(), opens=None, attrs=(), known=(), no_std_rewrites=False,
-                 recommends=(), prologue=None):
+                 recommends=(), prologue=None, decl_only=False, from_block=None, reach_guard=False):
         self.name = name
         self.props = list(props)
         self.ret = ret
@@ -166,6 +166,9 @@ class Fn:
         self.known = set(known)   # labels of clauses expected to fail (known findings)
         self.no_std_rewrites = no_std_rewrites
         self.prologue = prologue
+        self.decl_only = decl_only
+        self.reach_guard = reach_guard
+        self.from_block = from_block   # (file, header): R-flatten, take the fn from another trait/impl block
 
 
 def _cl(c, kind, i):
@@ -193,9 +196,10 @@ class Unit:
         self.trusted = []       # strings
         self.items = []
         self.header = ['#![feature(allocator_api)]', '#![allow(unused_imports, unused_variables, dead_code, unused_mut, unused_parens, unused_assignments, non_snake_case, unreachable_code, unreachable_patterns)]',
-                       'use vstd::prelude::*;']
+                       'use vstd::prelude::*;', 'use vstd::std_specs::cmp::PartialEqSpec;']
         self.uses = []
         self.canaries = []      # names of proof fns that must FAIL
+        self.reach = True       # emit a `ensures false` clone of every function under contract (vacuity guard)
         self.smoke = []
         self._cur_fn = None
 
@@ -315,6 +319,13 @@ class Unit:
             k += 1
         for fn in fns:
             last = None
+            if fn.from_block:
+                f2, h2 = fn.from_block
+                rf2 = self.rf(f2)
+                _, o2, c2 = rf2.find_impl(h2)
+                self.rewrite_log.append(dict(rule='R-flatten', at=f"{f2}:{rf2.line_of(o2)}", what=f"{fn.name} of `{h2}` emitted as a member of `{implname}`"))
+                self._emit_fn(rf2, f2, fn, within=(o2, c2), owner=implname)
+                continue
             for blk in blocks:
                 try:
                     rf.find_fn(fn.name, blk, fn.nth)
@@ -333,14 +344,43 @@ class Unit:
         self._emit_fn(rf, file, fn, within=None, owner='')
 
     def _emit_fn(self, rf, file, fn, within, owner):
+        self._emit_fn_inner(rf, file, fn, within, owner)
+        if self.reach and not fn.external_body and not fn.decl_only and (fn.requires or fn.reach_guard):
+            loc = rf.find_fn(fn.name, within, fn.nth)
+            if loc['body_open'] is None:
+                return
+            import copy
+            clone = copy.copy(fn)
+            clone.emit_name = (fn.emit_name or fn.name) + '__reach'
+            clone.ensures = [('reach', 'false')]
+            clone.known = set()
+            n0 = len(self.chunks)
+            nf = len(self.functions)
+            log0 = len(self.rewrite_log)
+            self._emit_fn_inner(rf, file, clone, within, owner)
+            del self.rewrite_log[log0:]
+            cname = self.functions[-1]['qual']
+            del self.functions[nf:]
+            for ch in self.chunks[n0:]:
+                ch.origin = ('canary', cname)
+            self.canaries.append(cname)
+
+    def _emit_fn_inner(self, rf, file, fn, within, owner):
         loc = rf.find_fn(fn.name, within, fn.nth)
         start, end, bo = loc['start'], loc['end'], loc['body_open']
+        if fn.decl_only and bo is not None:
+            # R-decl: a trait method's default body is dropped; only its signature and contract are emitted
+            self.rewrite_log.append(dict(rule='R-decl', at=f"{file}:{rf.line_of(start)}", what=f"default body of {fn.name} dropped (declaration + contract only)"))
+            end = bo + 1
+            bo = None
         src_text = rf.text[start:end]
         line0 = rf.line_of(start)
         emit_name = fn.emit_name or fn.name
         qual = (owner + '::' if owner else '') + emit_name
         first_line = len(self._flat_lines_so_far())
         sig = rf.text[start:bo if bo is not None else end - 1]
+        if fn.decl_only:
+            sig = sig.rstrip()
         body = rf.text[bo:end] if bo is not None else ';'
         # ---------------- signature
         ssl = Slice(sig, file, line0, self.rewrite_log)
